@@ -535,3 +535,39 @@ func (m *RIB) Dangling() []string {
 func (m *RIB) StateHash() string {
 	return m.Contents().String() + fmt.Sprint(m.HeldIDs())
 }
+
+// Predict applies spec as the model itself would (no implementation verdicts):
+// Install -> apply and release held operations in ascending id order until a fixed
+// point; Hold -> hold (or nothing if forward references are disallowed); Fail -> nothing.
+// Used where the implementation's answer was not observed (a client cut off mid-RPC).
+func (m *RIB) Predict(spec gen.OpSpec) Outcome {
+	o, _ := m.Classify(spec)
+	switch o {
+	case Install:
+		delete(m.Held, spec.Op.GetId())
+		m.apply(spec)
+		if spec.Op.GetOp() == spb.AFTOperation_DELETE {
+			return o
+		}
+		for changed := true; changed; {
+			changed = false
+			for _, id := range m.HeldIDs() {
+				h := m.Held[id]
+				switch c, _ := m.Classify(h.Spec); c {
+				case Install:
+					m.apply(h.Spec)
+					delete(m.Held, id)
+					changed = true
+				case Fail:
+					delete(m.Held, id)
+				}
+			}
+		}
+	case Hold:
+		if !m.NoFwdRef {
+			m.seq++
+			m.Held[spec.Op.GetId()] = &HeldOp{Spec: spec, Seq: m.seq}
+		}
+	}
+	return o
+}
